@@ -1416,6 +1416,13 @@ class Node:
         peer = self._find_connection_peer(conn)
         if peer:
             peer.disconnect_reason = DISCONNECT_REASON_DPR
+            if peer.connection is conn:
+                # the peer may hold a second connection that stays ready; it
+                # is the one to route through from now on
+                peer.connection = next(
+                    (c for c in self.connections.values()
+                     if c is not conn and c.state in PEER_READY_STATES and
+                     self._find_connection_peer(c) is peer), conn)
 
         self.send_message(conn, answer)
 
